@@ -141,12 +141,17 @@ def run(adds, with_unversioned, save_load, bundlify=False, interleave=True, star
                 extras.append(u)
         for (i, m, form) in adds:
             d = ver(i, m)
+            # every second 2.1 addition is written WITHOUT its spec_version member and the version is named by the caller instead (dictionary,
+            # list and JSON-text forms): what is stored is the 2.1 object all the same
+            named = d.get("spec_version") == "2.1" and d["type"] == "identity" and (i + m) % 2 == 0 and form in (1, 2, 4)
+            src = {k: v for k, v in d.items() if k != "spec_version"} if named else d
+            kw = {"version": "2.1"} if named else {}
             try:
-                fstore.add(form_of(d, form if form != 4 else 4))
+                fstore.add(form_of(src, form if form != 4 else 4), **kw)
             except DataSourceError:
                 if (i, m) not in model:
                     return False          # loud refusal is only acceptable for a version that is already stored
-            mstore.add(form_of(d, form if form != 4 else 1))
+            mstore.add(form_of(src, form if form != 4 else 1), **kw)
             if (i, m) not in model:
                 model.append((i, m))
             if interleave and not check_stores((fstore, mstore), model, extras):
@@ -169,7 +174,18 @@ def run(adds, with_unversioned, save_load, bundlify=False, interleave=True, star
                 part.source.load_from_file(p2)
                 if not check_stores((part,), model, []):
                     return False
-        return check_stores((fstore, mstore), model, extras)
+        if not check_stores((fstore, mstore), model, extras):
+            return False
+        # the same directory reached through symbolic links (a linked type directory, linked per-id directories / files): same content
+        ffs.makedirs("/view")
+        for k, t in enumerate(sorted(ffs.listdir("/fs"))):
+            if k % 2 == 0:
+                ffs.symlink("/fs/" + t, "/view/" + t)
+            else:
+                ffs.makedirs("/view/" + t)
+                for e in ffs.listdir("/fs/" + t):
+                    ffs.symlink("/fs/%s/%s" % (t, e), "/view/%s/%s" % (t, e))
+        return check_stores((F.FileSystemSource("/view", allow_custom=True),), model, extras)
     finally:
         F.os, F.io = saved
         if saved_m:
